@@ -40,6 +40,8 @@ def run(ctx):
     from .. import wrappers
     wrappers.accessors(ctx, rep, roles, "C12", "R12.7")
     wrappers.digest_wrapper(ctx, rep, roles, "C12", "R12.8")
+    from .. import identity
+    identity.check(ctx, rep, "C12", "R12.9", ["id-eq", "id-hash", "id-ord", "id-clone", "hb-ord"])
 
 
 def r12_1b(ctx, rep, roles):
